@@ -167,6 +167,9 @@ def suites(prop: str, tier: str) -> t.List[Suite]:
             Suite('composed', COMPOSED, ['left'], 0, ['async'] if q else ['async', 'thread'], symptoms=LEFT),
             Suite('cancel-every-step', ['corpus', 'plain'] + ([] if q else ['oneof', 'switch', 'rec']), ['left', 'cancel'], 0, ['async', 'thread'],
                   symptoms=LEFT, plans='cancel', max_nodes=8 if q else 8),
+            # the caller cancels at every loop step of a run in which one node fails (contained or not)
+            Suite('cancel-every-step-with-failure', ['corpus'] + ([] if q else ['oneof', 'plain']), ['left', 'cancel'], 0, ['async'],
+                  symptoms=LEFT, plans='cancel-fail', max_nodes=7 if q else 7),
             Suite('cancel-gated-collab', ['corpus', 'plain'], ['left', 'cancel'], 0, ['async'], collab={'mode': 'gated', 'store': 'rec'},
                   symptoms=LEFT, plans='cancel1', max_nodes=4 if q else 5, limit=4000),
             Suite('d1', ['corpus'] + ([] if q else ['oneof', 'rec']), ['left'], 1, ['thread'], symptoms=LEFT, max_nodes=5),
@@ -232,6 +235,9 @@ def case_plans(spec: dict, suite: Suite, fam: str) -> t.List[dict]:
         pl = EN.base_plans(spec)[:2]
     elif suite.plans == 'cancel1':
         return EN.base_plans(spec)[:1]
+    elif suite.plans == 'cancel-fail':
+        b = EN.base_plans(spec)[0]
+        return [dict(b, **{n: ['raise:E1']}) for n in spec['nodes'] if n not in b]
     elif suite.plans == 'ok+fail':
         pl = EN.base_plans(spec)[:1]
         names = list(spec['nodes'])
@@ -272,7 +278,7 @@ def work(arg: tuple) -> dict:
                 if suite.require_tag not in _R.evaluate(sp, plan, base.inputs[0]).tags:
                     continue
             cases = [base]
-            if suite.plans in ('cancel', 'cancel1'):
+            if suite.plans in ('cancel', 'cancel1', 'cancel-fail'):
                 x0 = X.execute(base)
                 cases = [X.Case(sp, [plan], collab=dict(suite.collab), fam=fam, cancel=(0, k)) for k in range(x0.steps + 1)]
             for case in cases:
